@@ -12,6 +12,7 @@ import (
 	clover "github.com/ostafen/clover/v2"
 	d "github.com/ostafen/clover/v2/document"
 	"github.com/ostafen/clover/v2/index"
+	"github.com/ostafen/clover/v2/query"
 	"github.com/ostafen/clover/v2/store"
 )
 
@@ -839,6 +840,51 @@ func streamC20(c *Ctx) {
 			_ = d.Validate(doc)
 			var out map[string]interface{}
 			_ = doc.Unmarshal(&out)
+			// the rest of the public surface, with what it must answer
+			exp := mkTime(1900000000000000000+int64(g.pick(1000)), []int{0, 3600, -3630}[g.pick(3)])
+			doc.SetExpiresAt(exp)
+			if e := doc.ExpiresAt(); e == nil || !e.Equal(exp) {
+				c.Violation(&Replay{Stream: "api", Case: []interface{}{J{"k": "api", "i": i}}, Note: "ExpiresAt does not return what SetExpiresAt stored"})
+			}
+			if doc.TTL() <= 0 {
+				c.Violation(&Replay{Stream: "api", Case: []interface{}{J{"k": "api", "i": i}}, Note: "TTL of a document expiring in 2030 is not positive"})
+			}
+			all := map[string]interface{}{"p": int64(i), "q.r": "s", "t": nil}
+			d2 := d.NewDocument()
+			d2.SetAll(all)
+			if d2.Get("p") != int64(i) || d2.Get("q.r") != "s" || !d2.Has("t") || !d2.Has("q") {
+				c.Violation(&Replay{Stream: "api", Case: []interface{}{J{"k": "api", "i": i}}, Actual: []string{canonDoc(d2.AsMap())}, Note: "SetAll does not set every (unrelated) path of its map"})
+			}
+			id1, id2 := clover.NewObjectId(), clover.NewObjectId()
+			idDoc := d.NewDocument()
+			idDoc.Set("_id", id1)
+			if id1 == id2 || len(id1) != 36 || d.Validate(idDoc) != nil {
+				c.Violation(&Replay{Stream: "api", Case: []interface{}{J{"k": "api", "i": i}}, Actual: []string{id1, id2}, Note: "NewObjectId does not produce distinct valid ids"})
+			}
+			sk, lim := g.pick(7)-3, g.pick(7)-3
+			q := query.NewQuery("cq").Skip(sk).Limit(lim)
+			wantSkip := sk
+			if sk < 0 {
+				wantSkip = 0
+			}
+			if q.Collection() != "cq" || q.GetSkip() != wantSkip || q.GetLimit() != lim || len(q.SortOptions()) != 0 || q.Criteria() != nil {
+				c.Violation(&Replay{Stream: "api", Case: []interface{}{J{"k": "api", "skip": sk, "limit": lim}}, Actual: []string{fmt.Sprint(q.GetSkip(), q.GetLimit())}, Note: "query getters do not report what the builders set (negative skip ignored, limit as given)"})
+			}
+			dir := g.pick(9) - 4
+			qs := q.Sort(query.SortOption{Field: "f", Direction: dir})
+			wantDir := 1
+			if dir < 0 {
+				wantDir = -1
+			}
+			if so := qs.SortOptions(); len(so) != 1 || so[0].Field != "f" || so[0].Direction != wantDir || len(q.SortOptions()) != 0 || qs.GetSkip() != wantSkip {
+				c.Violation(&Replay{Stream: "api", Case: []interface{}{J{"k": "api", "dir": dir}}, Note: "Sort does not normalise the direction to ±1, or modifies the query it was called on"})
+			}
+			if so := q.Sort().SortOptions(); len(so) != 1 || so[0].Field != "_id" || so[0].Direction != 1 {
+				c.Violation(&Replay{Stream: "api", Case: []interface{}{J{"k": "api"}}, Note: "Sort() without options does not sort by _id ascending"})
+			}
+			if !query.IsField(query.Field("x")) || query.IsField("x") || query.IsField(nil) {
+				c.Violation(&Replay{Stream: "api", Case: []interface{}{J{"k": "api"}}, Note: "IsField misclassifies an operand"})
+			}
 			r := &index.Range{Start: g.Atom(), End: g.Atom(), StartIncluded: g.pick(2) == 0, EndIncluded: g.pick(2) == 0}
 			_ = r.IsEmpty()
 			_ = r.IsNil()
